@@ -559,7 +559,8 @@ def campaign(prop_id, tier, seed):
                 "samples": cov_samples, "classes": dict(sorted(classes.items())), "discarded": discarded,
                 "shards": nshards, "examples_per_shard": cfg["examples"], "known_finding_hits": known_hits,
                 "unreproduced_failures": unreproduced, "required_classes_missing": missing,
-                "flavours": cfg["flavours"], "budget_stopped_shards": sum(1 for s in shards if s.get("budget_stop"))}
+                "flavours": cfg["flavours"], "budget_stopped_shards": sum(1 for s in shards if s.get("budget_stop")),
+                "per_shard": [[s.get("evaluations", 0), round(s.get("wall", 0.0), 1)] for s in shards]}
     if hasattr(prop, "extra_coverage"):
         coverage.update(prop.extra_coverage(tier))
     if pre:
